@@ -760,6 +760,17 @@ func (e *Engine) evComposite(x *ast.CompositeLit, st *State) Value {
 
 func (e *Engine) evComposite0(x *ast.CompositeLit, st *State) Value {
 	t := e.typeOf(x)
+	if pt, ok := types.Unalias(t).Underlying().(*types.Pointer); ok {
+		// an element of a slice or map literal written without its type, where the element type is *T: `{...}` is &T{...}
+		v := e.evCompositeOf(x, pt.Elem(), st)
+		r := e.alloc(st)
+		e.storePtr(st, r, v)
+		return Value{r, t}
+	}
+	return e.evCompositeOf(x, t, st)
+}
+
+func (e *Engine) evCompositeOf(x *ast.CompositeLit, t types.Type, st *State) Value {
 	switch u := types.Unalias(t).Underlying().(type) {
 	case *types.Struct:
 		sn := e.sortOf(t)
